@@ -24,7 +24,7 @@ pub mod qosx;
 pub mod wiregen;
 #[cfg(not(feature = "security"))]
 pub mod plcdr;
-// pub mod hostile;
+pub mod hostile;
 pub mod sched_bodies;
 
 #[cfg(feature = "security")]
